@@ -285,8 +285,13 @@ def arr_model(case, ctx):
     ctx.close(d2[0] + d2[1], d1[0], ("closed", "dres_sum", modes, "xc2" if xc2 else "xc1"), rtol=1e-9, scale=dsc)
     if xc2:
         # baseline potentials: d/d n_s of e(n_a, n_b) at n_a = n_b equals d/dn of e(n)
-        ctx.close(t2[0][0], t1[0][0], ("closed", "vrho", modes), rtol=1e-10, scale=float(np.max(np.abs(t1[0]))) + 1e-300)
-        ctx.close(t2[0][1], t1[0][0], ("closed", "vrho", modes), rtol=1e-10, scale=float(np.max(np.abs(t1[0]))) + 1e-300)
+        # the unpolarised and the polarised evaluation are different code paths of libxc, which agree to its own accuracy
+        # (1.7e-10 seen for PBE correlation at low density, thorough tier, seed 3): 1e-9 as for the energies above; a
+        # same-spin / opposite-spin baseline is a difference of two such evaluations (2e-8, as in C04)
+        split = any(str(k.get(c, "") or "").startswith(("OS_", "SS_")) for k in spec["kernels"] for c in ("mul", "add"))
+        vtol = 2e-8 if split else 1e-9
+        ctx.close(t2[0][0], t1[0][0], ("closed", "vrho", modes), rtol=vtol, scale=float(np.max(np.abs(t1[0]))) + 1e-300)
+        ctx.close(t2[0][1], t1[0][0], ("closed", "vrho", modes), rtol=vtol, scale=float(np.max(np.abs(t1[0]))) + 1e-300)
     # swap
     fa, da, ta = ev([0.5 * ra, 0.4 * rb])
     fb, db, tb = ev([0.4 * rb, 0.5 * ra])
